@@ -90,6 +90,7 @@ type funcRun struct {
 	entryMeasures []Term
 	entryAlloc Term
 	isInit bool
+	tokenWg Term
 }
 
 type siteInfo struct {
